@@ -3,6 +3,9 @@ import Model.C02.Der
 import Model.C02.Rfc6979
 import Model.C03.Schnorr
 import Model.C12.Taproot
+import Model.Common.Sha256
+import Model.Common.Sha1
+import Model.Common.Ripemd160
 /-
 C10 — the composition: Core's `GenericTransactionSignatureChecker` assembled from the models that exist.
 
@@ -144,5 +147,21 @@ def verifyInput (flags : Nat) (tx : Tx) (spent : List TxOut) (i : Nat) (witnessW
   let (annex, lh) := tapData C witnessWire
   let cx : TxCtx := { tx := tx, nIn := i, spent := spent, annex := annex, leafHash := lh }
   Core.verifyScript (envOf C flags cx) inp.scriptSig spk witnessWire
+
+/-! ## the instance the driver runs: secp256k1, SHA-256 / RIPEMD-160 / SHA-1, BIP340's tagged hash -/
+
+def secp : GroupOps EC.Point := EC.ops EC.secp256k1
+
+/-- `CPubKey` → point on secp256k1: the 33 / 65-byte SEC forms (C12's `point_from_octets`; hybrid forms refused) -/
+def secpParsePub (k : Bytes) : Option EC.Point :=
+  match Taproot.pointFromOctets secp k with
+  | .ok P => some P
+  | .error _ => none
+
+def bip340Params : Schnorr.Params :=
+  { pSize := 32, nSize := 32, nlen := 256, hfLen := 32, TH := taggedHash }
+
+def secpCrypto : Crypto EC.Point :=
+  { o := secp, S := sha256, ripemd160 := ripemd160, sha1 := sha1, parsePub := secpParsePub, prm := bip340Params }
 
 end Btc.Spend
